@@ -105,11 +105,16 @@ static void run_script(TLS_CONNECT *conn, const char *who, int dir, const char *
 				woff += 1;
 			}
 		} else if (op[0] == 'W') {           // one attempt to write n bytes that may be refused (TLCP / TLS 1.2 refuse to send while received data is still buffered): a refusal does not end the script
-			long n = atol(op + 1); uint8_t *data = malloc(n ? n : 1); for (long i = 0; i < n; i++) data[i] = fbyte(dir, woff + i);
-			size_t sent = 0; vt_begin("WriteBegin"); vt_str("who", who); vt_int("n", n); vt_end();
-			int rc = xsend(conn, data, (size_t)n, &sent);
-			vt_begin("Write"); vt_str("who", who); vt_int("n", n); vt_int("rc", rc); vt_int("sent", rc == 1 ? (long)sent : 0); vt_end();
-			if (rc == 1) woff += (long)sent;
+			long n = atol(op + 1), done = 0; uint8_t *data = malloc(n ? n : 1); for (long i = 0; i < n; i++) data[i] = fbyte(dir, woff + i);
+			int calls = 0;
+			while (done < n && calls++ < 64) {          // like 'w' (a call sends at most one record), except that a refusal of the FIRST call is not the end of the script
+				size_t sent = 0; vt_begin("WriteBegin"); vt_str("who", who); vt_int("n", n - done); vt_end();
+				int rc = xsend(conn, data + done, (size_t)(n - done), &sent);
+				vt_begin("Write"); vt_str("who", who); vt_int("n", n - done); vt_int("rc", rc); vt_int("sent", rc == 1 ? (long)sent : 0); vt_end();
+				if (rc != 1 || sent == 0) { if (done) { free(data); return; } break; }
+				done += (long)sent;
+			}
+			woff += done;
 			free(data);
 		} else if (op[0] == 'w') {
 			long n = atol(op + 1), done = 0; uint8_t *data = malloc(n ? n : 1);
